@@ -479,6 +479,27 @@ def r_context_op_fresh(cx):
 FS_READ = ("std::fs::read_to_string", "std::fs::read", "std::fs::File::open", "std::fs::OpenOptions::open")
 
 
+def _fs_readers(cx):
+    """functions of context::plain that (transitively, through private helpers) read files"""
+    names = [n for n in cx.f.fn_names() if n.startswith("context::plain::") or n.startswith("<context::plain::")]
+    direct = set()
+    calls = {}
+    for n in names:
+        g = cx.f.fn(n)
+        cs = {(g.callee(t) or "") for _, t in g.calls()}
+        calls[n] = cs
+        if any(c in FS_READ or c.startswith("std::fs::") for c in cs):
+            direct.add(n)
+    changed = True
+    while changed:
+        changed = False
+        for n in names:
+            if n not in direct and calls[n] & direct:
+                direct.add(n)
+                changed = True
+    return direct
+
+
 @rule("R-REGISTRATION-FIRST", ["C18"])
 def r_registration_first(cx):
     """In Plain::get_resource every access to the file system happens only after the table of run-time registered
@@ -486,8 +507,9 @@ def r_registration_first(cx):
     n = 0
     for name in _context_impls(cx, "get_resource"):
         f = cx.f.fn(name)
+        readers = _fs_readers(cx)
         reads = [(bb, t) for bb, t in f.calls() if (f.callee(t) or "") in FS_READ or
-                 (f.callee(t) or "").startswith("std::fs::")]
+                 (f.callee(t) or "").startswith("std::fs::") or (f.callee(t) or "") in readers]
         if not reads:
             continue
         lookups = []
